@@ -3,7 +3,9 @@
 EXTENDS Route, TraceIO
 VARIABLE cs
 Ok(e) == /\ e.ev = "route" /\ e.out = "ok"
-         /\ NearestUnique(cs.pos, cs.links, cs.from) /\ NearestUnique(cs.pos, cs.links, cs.to)
+         /\ IF "twin" \in DOMAIN cs
+            THEN TwinOK(cs.pos, cs.links, cs.twin[1], cs.twin[2]) /\ cs.from = cs.pos[cs.twin[1]] /\ cs.to = cs.pos[cs.twin[2]] /\ e.twinapart
+            ELSE NearestUnique(cs.pos, cs.links, cs.from) /\ NearestUnique(cs.pos, cs.links, cs.to)
          /\ e.exact                                        \* the reported totals are the exact sums (integers / quarters)
          /\ \A i \in 1..Len(e.route) : e.route[i] \in 1..Len(cs.links)      \* every returned piece is one of the links
          /\ RouteOK(cs.pos, cs.links, cs.opt, cs.from, cs.to, e.route, e.dist, e.time4)
